@@ -168,17 +168,18 @@ pub fn explore(src: &str, max_leaves: usize) -> usize {
     leaves
 }
 
-fn tree_sweep(k: usize, leaf_cap: usize) -> Sweep {
+// `stride` 1 = the whole family; 12 = only the top-level placement with d0 as the body (k = 4).
+fn tree_sweep(k: usize, leaf_cap: usize, stride: u64) -> Sweep {
     let fam = Rc::new(Family::new(k));
     let f2 = fam.clone();
     if !crate::HAS_VERIF_HOOKS {
         crate::infra::machinery_exit("the verif hooks (src/verif_hooks.rs) are missing from /repo");
     }
     Sweep::new(
-        &format!("choice trees of the definition-order family, k = {k}"),
-        fam.count(),
+        &format!("choice trees of the definition-order family, k = {k}{}", if stride > 1 { " (top-level placement, body d0)" } else { "" }),
+        fam.count() / stride,
         move |idx| {
-            let src = fam.program(idx);
+            let src = fam.program(idx * stride);
             count!("evaluations");
             let leaves = explore(&src, leaf_cap);
             if leaves > 1 {
@@ -186,6 +187,152 @@ fn tree_sweep(k: usize, leaf_cap: usize) -> Sweep {
             }
             if idx % 9973 == 5 {
                 crate::infra::sample("program", || json!({"source": src, "leaves": leaves}));
+            }
+        },
+        move |idx| f2.program(idx * stride),
+    )
+}
+
+// Everything a launch of `gram run` would show for `src`, computed in process: the diagnostics of the
+// first failing stage with their listings, or the elaborated term, its type and the end of evaluation.
+fn full_observation(src: &str) -> String {
+    bind::with_front(src, &[], 3, |f| match f {
+        Front::Panic { stage, message } => format!("panic in {stage}: {message}"),
+        Front::TokenizeErr(e) => format!("tokenize-error\n{}", bind::messages(&e).join("\n")),
+        Front::ParseErr { errors, .. } => format!("parse-error\n{}", bind::messages(&errors).join("\n")),
+        Front::TypeErr { errors, .. } => format!("type-error\n{}", bind::messages(&errors).join("\n")),
+        Front::Ok { elab, ty, .. } => {
+            let (end, how, steps) = bind::run_steps(elab, 300, |_, _| {});
+            let how = match how {
+                bind::RunEnd::Value => "value".to_owned(),
+                bind::RunEnd::Stuck => "stuck".to_owned(),
+                bind::RunEnd::Horizon => "horizon".to_owned(),
+                bind::RunEnd::Panic(m) => format!("panic {m}"),
+            };
+            format!("ok\n{elab}\n{ty}\n{how} after {steps}: {end}")
+        }
+    })
+}
+
+// The multi-diagnostic family: programs that make each stage report several diagnostics at once, so
+// that any order or content that depends on a hash seed has something to show.
+//   0: strings over { $ ? @ x ' ' } of length <= 5 (tokenizer diagnostics)
+//   1: (a : int) => (b : int) => (n1 = e1; n2 = e2; n3 = e3; 0), n_i in { a b x y z } (clashes with the
+//      binders and with each other), e_i in { 1, u, v, u + v, w + u } (unbound names)
+//   2: p = T1; q = T2; r = T3; 0 with T_i ill-typed pieces (type diagnostics)
+//   3: the definition-order family with k = 2 and every 7th program of k = 3
+pub struct DiagFamily {
+    tok: u64,
+    scope: u64,
+    ty: u64,
+    order2: Family,
+    order3: Family,
+    // 4: well-typed programs with aliases, recursive groups, forward references and nested groups
+    //    (the families of the evaluation checks), which exercise the type checker and the evaluator
+    typed: Vec<String>,
+}
+
+const TOK_SYMS: [&str; 5] = ["$", "?", "@", "x", " "];
+const SCOPE_NAMES: [&str; 5] = ["a", "b", "x", "y", "z"];
+const SCOPE_EXPRS: [&str; 5] = ["1", "u", "v", "u + v", "w + u"];
+const TYPE_PIECES: [&str; 6] = ["1", "1 + true", "if 1 then 2 else 3", "1 2", "true * false", "(k : int) => k k"];
+
+impl DiagFamily {
+    pub fn new() -> DiagFamily {
+        let mut typed: Vec<String> = crate::props::sem::alias_family(3).into_iter().map(|(_, s, _)| s).collect();
+        typed.extend(crate::props::sem::nested_family());
+        DiagFamily { tok: (1..=5).map(|n| 5u64.pow(n)).sum(), scope: 125 * 125, ty: 216, order2: Family::new(2), order3: Family::new(3), typed }
+    }
+    pub fn count(&self) -> u64 {
+        self.tok + self.scope + self.ty + self.order2.count() + self.order3.count().div_ceil(7) + self.typed.len() as u64
+    }
+    pub fn program(&self, mut idx: u64) -> String {
+        if idx < self.tok {
+            let mut len = 1;
+            while idx >= 5u64.pow(len) {
+                idx -= 5u64.pow(len);
+                len += 1;
+            }
+            let mut s = String::new();
+            for _ in 0..len {
+                s.push_str(TOK_SYMS[(idx % 5) as usize]);
+                idx /= 5;
+            }
+            return s;
+        }
+        idx -= self.tok;
+        if idx < self.scope {
+            let mut defs = vec![];
+            for _ in 0..3 {
+                let n = SCOPE_NAMES[(idx % 5) as usize];
+                idx /= 5;
+                let e = SCOPE_EXPRS[(idx % 5) as usize];
+                idx /= 5;
+                defs.push(format!("{n} = {e}"));
+            }
+            return format!("(a : int) => (b : int) => ({}; 0)", defs.join("; "));
+        }
+        idx -= self.scope;
+        if idx < self.ty {
+            let mut defs = vec![];
+            for n in ["p", "q", "r"] {
+                defs.push(format!("{n} = {}", TYPE_PIECES[(idx % 6) as usize]));
+                idx /= 6;
+            }
+            return format!("{}; 0", defs.join("; "));
+        }
+        idx -= self.ty;
+        if idx < self.order2.count() {
+            return self.order2.program(idx);
+        }
+        idx -= self.order2.count();
+        if idx < self.order3.count().div_ceil(7) {
+            return self.order3.program(idx * 7);
+        }
+        idx -= self.order3.count().div_ceil(7);
+        self.typed[idx as usize].clone()
+    }
+}
+
+// Repeat-run differential in process: std's RandomState takes its keys from a per-thread pair that is
+// incremented for every new container, so each repetition of the pipeline on the same text gives every
+// hash container in gram different keys (the in-process counterpart of launching the binary again;
+// the launch sweep below does that too, for fewer files).
+fn thread_sweep(tier: Tier) -> Sweep {
+    let fam = Rc::new(DiagFamily::new());
+    let f2 = fam.clone();
+    let repeats = tier.pick(5, 12);
+    Sweep::new(
+        "repeat-run differential over the multi-diagnostic family (fresh hash keys per repetition)",
+        fam.count(),
+        move |idx| {
+            let src = fam.program(idx);
+            count!("evaluations");
+            let mut first: Option<String> = None;
+            for r in 0..repeats {
+                let obs = full_observation(&src);
+                count!("repeat_runs");
+                match &first {
+                    None => first = Some(obs),
+                    Some(f) => {
+                        if *f != obs {
+                            violation(
+                                "different-output-across-hash-seeds",
+                                &src,
+                                &format!("the same output on every repetition; first run: {}", crate::infra::clip(f, 1500)),
+                                &format!("repetition {r}: {}", crate::infra::clip(&obs, 1500)),
+                            );
+                            return;
+                        }
+                    }
+                }
+            }
+            let f = first.unwrap_or_default();
+            if f.matches("[Error]").count() >= 2 || f.lines().filter(|l| l.starts_with("Variable") || l.contains("Unexpected")).count() >= 2 {
+                count!("multi_diagnostic_programs");
+            }
+            if !f.starts_with("ok") {
+                count!("nontrivial");
             }
         },
         move |idx| f2.program(idx),
@@ -285,19 +432,20 @@ impl Prop for C13 {
     }
     fn sweeps(&self, tier: Tier) -> Vec<Sweep> {
         let cap = tier.pick(300, 5000);
-        let mut v = vec![tree_sweep(2, cap), tree_sweep(3, cap)];
+        let mut v = vec![tree_sweep(2, cap, 1), tree_sweep(3, cap, 1)];
         if tier == Tier::Thorough {
-            v.push(tree_sweep(4, cap));
+            v.push(tree_sweep(4, 48, 12));
         }
+        v.push(thread_sweep(tier));
         v.push(launch_sweep(tier));
         v
     }
     fn evidence(&self, tier: Tier) -> EvidenceSpec {
         EvidenceSpec {
             level: "model_checking",
-            rule: "states = executions of the real `parse` under one complete assignment of iteration orders (a leaf of the choice tree), transitions = choice points answered; the explorer replays a prefix of permutation choices through hook H1 and takes the ascending order afterwards, records the arity n! met at each point and enumerates every alternative (stateless DFS, cap 300 / 5000 leaves per program, the number of capped trees is reported). Space: every group of k <= 3 (thorough: 4) definitions, each a literal, a lambda mentioning any subset of the group, or a non-value expression mentioning any subset, with each group variable as the body, at top level and nested in a called function. All leaves must be equal (verdict, diagnostics, order). Separately the real binary (hooks off) is launched 6/24 times on the examples and on multi-diagnostic programs for `check` and `run`; any byte difference between launches is a violation (repeat-run differential, not exhaustive). evaluations = programs + files; non-trivial = programs whose choice tree has more than one leaf".to_owned(),
+            rule: "states = executions of the real `parse` under one complete assignment of iteration orders (a leaf of the choice tree), transitions = choice points answered; the explorer replays a prefix of permutation choices through hook H1 and takes the ascending order afterwards, records the arity n! met at each point and enumerates every alternative (stateless DFS, cap 300 / 5000 leaves per program, the number of capped trees is reported). Space: every group of k <= 3 definitions (thorough: also k = 4 at top level with d0 as the body, cap 48 leaves), each a literal, a lambda mentioning any subset of the group, or a non-value expression mentioning any subset, with each group variable as the body, at top level and nested in a called function. All leaves must be equal (verdict, diagnostics, order). For hash containers that no hook owns (none on the current tree), the whole pipeline (tokenize, parse, type check, evaluate) is repeated 5/12 times in process on every program of the multi-diagnostic family (all strings <= 5 over five symbols with lexical errors; 15625 groups of three definitions clashing with binders and each other and mentioning unbound names; 216 triples of ill-typed definitions; the definition-order family; the alias and nested-group families): std gives every new container fresh keys, and every repetition must print the same thing (repeat-run differential, not exhaustive). Separately the real binary (hooks off) is launched 6/24 times on the examples and on multi-diagnostic programs for `check` and `run`; any byte difference between launches is a violation (repeat-run differential, not exhaustive). evaluations = programs + files; non-trivial = programs whose choice tree has more than one leaf".to_owned(),
             assumptions: vec![
-                "hook H1 owns the only iteration over a hash container that reaches an output (grep of non-test code; the repeat-run differential would expose another site)".to_owned(),
+                "hook H1 owns the only iteration over a hash container that reaches an output (grep of non-test code); another site is visible only to the repeat-run differentials, which sample hash keys instead of enumerating orders".to_owned(),
                 "ordered containers pass through the hook unchanged, so a repaired tree has no choice points".to_owned(),
             ],
             evaluations: "evaluations",
@@ -306,8 +454,8 @@ impl Prop for C13 {
             transitions: Some("transitions"),
             traces: Some("traces_validated"),
             exhaustive: true,
-            bounds: json!({"max_group_size": tier.pick(3, 4), "leaf_cap_per_program": tier.pick(300, 5000), "launches_per_file": tier.pick(6, 24)}),
-            minimums: vec![("states", 10_000), ("files_identical_across_launches", 20), ("multi_diagnostic_files", 5)],
+            bounds: json!({"max_group_size": tier.pick(3, 4), "leaf_cap_per_program": tier.pick(300, 5000), "launches_per_file": tier.pick(6, 24), "in_process_repetitions": tier.pick(5, 12)}),
+            minimums: vec![("states", 10_000), ("files_identical_across_launches", 20), ("multi_diagnostic_files", 5), ("multi_diagnostic_programs", 10_000), ("repeat_runs", 100_000)],
         }
     }
 }
